@@ -11,7 +11,9 @@ import (
 	"unsafe"
 
 	mocker "github.com/tencent/goom"
+	"github.com/tencent/goom/arg"
 	"github.com/tencent/goom/internal/bytecode"
+	"github.com/tencent/goom/internal/unexports2"
 	"github.com/tencent/goom/verifharness/hxlib"
 	"github.com/tencent/goom/verifharness/zoo/fnzoo"
 )
@@ -47,6 +49,38 @@ func textBounds() (uintptr, uintptr) {
 func funcvalPtr(f interface{}) uintptr {
 	v := reflect.ValueOf(f)
 	return uintptr(bytecode.GetPtr(v))
+}
+
+// c02UM lets an unexported-method mocker be driven through the ExportedMocker operations of the history driver
+type c02UM struct {
+	um     mocker.UnExportedMocker
+	as     interface{}
+	method bool // As(func(recv, args..)): conditions then include the receiver
+}
+
+func (u *c02UM) Apply(cb interface{}) { u.um.Apply(cb) }
+func (u *c02UM) Cancel()              { u.um.Cancel() }
+func (u *c02UM) Canceled() bool       { return u.um.Canceled() }
+func (u *c02UM) String() string       { return u.um.String() }
+func (u *c02UM) When(a ...interface{}) *mocker.When {
+	if u.method {
+		a = append([]interface{}{arg.Any()}, a...)
+	}
+	return u.um.As(u.as).When(a...)
+}
+func (u *c02UM) Return(v ...interface{}) *mocker.When       { return u.um.As(u.as).Return(v...) }
+func (u *c02UM) Returns(v ...interface{}) *mocker.When      { return u.um.As(u.as).Returns(v...) }
+func (u *c02UM) Origin(o interface{}) mocker.ExportedMocker { u.um.Origin(o); return u }
+
+var c02Adapters = map[mocker.UnExportedMocker]*c02UM{}
+
+func c02Adapt(um mocker.UnExportedMocker) mocker.ExportedMocker {
+	if a, ok := c02Adapters[um]; ok {
+		return a
+	}
+	a := &c02UM{um, func(_ *fnzoo.T, a int) int { return 0 }, true}
+	c02Adapters[um] = a
+	return a
 }
 
 func c02(args []string) int {
@@ -85,12 +119,25 @@ func c02(args []string) int {
 	}
 	mM, _ := reflect.TypeOf(tt).MethodByName("M")
 	mM2, _ := reflect.TypeOf(tt).MethodByName("M2")
+	um1, e1 := unexports2.FindFuncByName("github.com/tencent/goom/verifharness/zoo/fnzoo.(*T).um1")
+	um2, e2 := unexports2.FindFuncByName("github.com/tencent/goom/verifharness/zoo/fnzoo.(*T).um2")
+	if e1 != nil || e2 != nil {
+		fmt.Fprintln(os.Stderr, "cannot resolve the unexported methods of fnzoo.T", e1, e2)
+		return 2
+	}
 	tgts := []tgt{
 		{"F1", reflect.ValueOf(fnzoo.F1).Pointer(), func(b *mocker.Builder) mocker.ExportedMocker { return b.Func(fnzoo.F1) }, fnzoo.F1, mkcbs(false), -1000, true},
 		{"G1", reflect.ValueOf(fnzoo.G1).Pointer(), func(b *mocker.Builder) mocker.ExportedMocker { return b.Func(fnzoo.G1) }, fnzoo.G1, mkcbs(false), -1100, true},
 		{"G2", reflect.ValueOf(fnzoo.G2).Pointer(), func(b *mocker.Builder) mocker.ExportedMocker { return b.Func(fnzoo.G2) }, fnzoo.G2, mkcbs(false), -1200, true},
 		{"T.M", mM.Func.Pointer(), func(b *mocker.Builder) mocker.ExportedMocker { return b.Struct(&fnzoo.T{}).Method("M") }, tt.M, mkcbs(true), -7001, false},
 		{"T.M2", mM2.Func.Pointer(), func(b *mocker.Builder) mocker.ExportedMocker { return b.Struct(&fnzoo.T{}).Method("M2") }, tt.M2, mkcbs(true), -7501, false},
+		// two UNEXPORTED methods of the same struct, mocked through Struct(x).ExportMethod(name)
+		{"T.um1", um1, func(b *mocker.Builder) mocker.ExportedMocker {
+			return c02Adapt(b.Struct(&fnzoo.T{}).ExportMethod("um1"))
+		}, tt.CallUm1, mkcbs(true), -7201, false},
+		{"T.um2", um2, func(b *mocker.Builder) mocker.ExportedMocker {
+			return c02Adapt(b.Struct(&fnzoo.T{}).ExportMethod("um2"))
+		}, tt.CallUm2, mkcbs(true), -7301, false},
 	}
 	type phT struct {
 		entry uintptr
@@ -119,8 +166,12 @@ func c02(args []string) int {
 	for _, t := range tgts {
 		tnames = append(tnames, t.name)
 	}
+	var firstBytes []int
+	for _, t := range tgts {
+		firstBytes = append(firstBytes, int(pristine[t.entry-lo]))
+	}
 	out.Put(map[string]interface{}{"kind": "setup", "text_bytes": len(pristine), "targets": tnames, "placeholder_sizes": []int{phs[0].size, phs[1].size},
-		"first_bytes": []int{int(pristine[tgts[0].entry-lo]), int(pristine[tgts[1].entry-lo]), int(pristine[tgts[2].entry-lo]), int(pristine[tgts[3].entry-lo]), int(pristine[tgts[4].entry-lo])}})
+		"first_bytes": firstBytes})
 	const page = 4096
 	for h := 0; h < n; h++ {
 		journal.WriteString("H\n")
